@@ -5,6 +5,7 @@ import (
 	"math"
 	"math/big"
 	"reflect"
+	"regexp"
 	"sort"
 	"strconv"
 	"strings"
@@ -259,6 +260,9 @@ func CoerceOut(s *model.Schema, typeName string, v interface{}, fl Flags) OutRes
 	return fail()
 }
 
+// RFC3339Shape is the grammar of an RFC 3339 date-time (what a Time leaf looks like in a response).
+var RFC3339Shape = regexp.MustCompile(`^\d{4}-\d{2}-\d{2}[Tt]\d{2}:\d{2}:\d{2}(\.\d+)?([Zz]|[+-]\d{2}:\d{2})$`)
+
 // TimeNear matches an RFC 3339 string denoting T (within Tol).
 type TimeNear struct {
 	T   time.Time
@@ -269,6 +273,10 @@ type TimeNear struct {
 func (t TimeNear) Match(got interface{}) bool {
 	s, isStr := got.(string)
 	if !isStr {
+		return false
+	}
+	// Go's parser is lenient (a one-digit hour, a comma before the fraction): the text must have the RFC 3339 shape itself
+	if !RFC3339Shape.MatchString(s) {
 		return false
 	}
 	p, err := time.Parse(time.RFC3339Nano, s)
